@@ -69,6 +69,38 @@ check("C06", "exploration",
       "runtime monitoring: differential oracle across three parsers over exhaustive token sequences + delta-debugging classifier",
       "DESIGN.md §3 C06")
 
+check("C17", "exploration",
+      "Runs the real lexer, syntax-tree parser and both evaluator parsers over every token sequence "
+      "up to length 4/5, random sequences, mutants and hostile raw texts and checks that tokens tile "
+      "the input and the tree reproduces it byte for byte; checks every span of the parsed corpus "
+      "(bounds, character boundaries, covered text) and evaluates programs with an error / assert / "
+      "undefined variable / missing field / std.trace / stray token planted at a known line and "
+      "column behind ASCII, multi-byte and CRLF padding, comparing the rendered location.",
+      "Column compared only when the text before the construct on its line is ASCII (as the property "
+      "states); the first location of the rendered trace is taken as the innermost frame.",
+      "runtime monitoring: structural invariants on lexer/parser output + planted-position oracle on rendered traces",
+      "DESIGN.md §3 C17")
+check("C19", "exploration",
+      "Formats every short token sequence the default parser accepts, a corpus of hand-written "
+      "programs covering the constructs named by the property, near-100-column programs and "
+      "comment-decorated variants with the real formatter (3 indents), re-parses the output with the "
+      "evaluator's parser and compares canonical trees (modulo the two documented sugar pairs), "
+      "comment token sequences from the real lexer and evaluation outcomes; failures are "
+      "delta-debugged to a minimal program and classified.",
+      "A diagnostic from the formatter is always accepted. Known findings cover the prototype "
+      "formatter's comment handling (dropped / swallowing comments).",
+      "runtime monitoring: round-trip oracle (format -> reparse -> compare tree, comments, evaluation) with delta debugging",
+      "DESIGN.md §3 C19")
+check("C20", "exploration",
+      "Pushes every token sequence up to length 4/5, random sequences, mutants and hostile texts "
+      "through format() on the rel and debug-assertion builds under a panic monitor; formats every "
+      "accepted program three times per indent setting and requires pass 2 == pass 1; runs "
+      "jrsonnet-fmt then jrsonnet-fmt --test on the corpus.",
+      "Known findings cover unstable comment placement; says nothing about programs outside the "
+      "generated corpus.",
+      "runtime monitoring: panic monitor + fixed-point oracle over exhaustive short inputs and generated programs",
+      "DESIGN.md §3 C20")
+
 NOT_APPLICABLE = []
 
 
